@@ -119,8 +119,8 @@ pub fn profile_cfg(profile: &str, content: &mut Rng) -> RunCfg {
         "restart" => {
             c.f_crash = 30;
             c.f_long_downtime = 250;
-            c.f_clock_jump = 25;
-            c.f_underfund = 350;
+            c.f_clock_jump = 40;
+            c.f_underfund = 450;
             c.f_part_fail = 500;
             c.f_pay_bad_outcome = 300;
             c.f_response_lost = 300;
@@ -553,9 +553,25 @@ impl RandomSched {
                 self.last_apply_method,
                 Some(Method::Datastore) | Some(Method::Pay)
             ) || self.last_kind == "cmd-parts"
-                || self.last_kind == "part";
+                || self.last_kind == "part"
+                || self.last_kind == "cmd-finish";
             if hot {
                 p *= 4;
+            }
+            // The window between answering the HTLCs and recording the
+            // outcome: a bookkeeping write has been issued but not applied.
+            let bookkeeping_pending = node.outstanding_rpcs().any(|(_, r)| {
+                matches!(r.state, RpcState::Issued)
+                    && matches!(
+                        super::oracle::rpc_kind(r.method, &r.params),
+                        super::oracle::RpcKind::MarkFailedAttempt
+                            | super::oracle::RpcKind::MarkFailedFree
+                            | super::oracle::RpcKind::MarkSucceededState
+                            | super::oracle::RpcKind::MarkSucceededAttempt
+                    )
+            });
+            if bookkeeping_pending {
+                p = p.max(c.f_crash * 5);
             }
             if self.rng.permille(p.min(500)) {
                 self.crashes += 1;
@@ -571,6 +587,19 @@ impl RandomSched {
                     down_s,
                 });
             }
+        }
+        // The wall clock of a machine that has just rebooted is often behind
+        // (no RTC, time not yet synchronised): step it back right after a
+        // restart, before anything is replayed.
+        if c.f_clock_jump > 0 && self.last_kind == "crash" && self.rng.chance(1, 3) {
+            let secs = -*self.rng.pick(&[
+                1i64,
+                (c.mpp_timeout as i64) / 2 + 1,
+                c.mpp_timeout as i64,
+                c.mpp_timeout as i64 * 3,
+                3600,
+            ]);
+            return Some(Op::ClockJump { secs });
         }
         if c.f_clock_jump > 0 && self.rng.permille(c.f_clock_jump) {
             let secs = *self.rng.pick(&[
